@@ -646,53 +646,64 @@ func explorePS(c *psConfig) (tot psTotals, finished bool) {
 	accepted := map[int]bool{}
 	rejected := map[int]bool{}
 	depth := 0
+	const batch = 2048 // states expanded per parallel batch: bounds the memory held by un-merged successors
 	for len(frontier) > 0 {
-		if r.Expired() || len(seen) > psStateCap {
-			return tot, false
-		}
-		res := make([]*psExpand, len(frontier))
-		par.For(int64(len(frontier)), 4, nil, func(i int64) { res[i] = psExpandState(c, frontier[i]) })
 		var next []*psState
 		var levelSigs []string
-		for i, ex := range res {
-			st := frontier[i]
-			tot.states++
-			tot.transitions += ex.transitions
-			tot.replay += ex.replaySteps
-			if ex.complete {
-				tot.complete++
+		for lo := 0; lo < len(frontier); lo += batch {
+			if r.Expired() || len(seen) > psStateCap {
+				tot.maxDepth = depth
+				return tot, false
 			}
-			if ex.completeOK {
-				tot.completeOK++
+			hi := lo + batch
+			if hi > len(frontier) {
+				hi = len(frontier)
 			}
-			for t := range ex.accepted {
-				accepted[t] = true
-			}
-			for t := range ex.rejected {
-				rejected[t] = true
-			}
-			for _, e := range ex.events {
-				cs := Case{Phase: "partset", Config: c.name, History: c.histNames(st.hist)}
-				if e.tok >= 0 {
-					cs.Token = c.tokens[e.tok].name
+			part := frontier[lo:hi]
+			res := make([]*psExpand, len(part))
+			par.For(int64(len(part)), 4, nil, func(i int64) { res[i] = psExpandState(c, part[i]) })
+			for i, ex := range res {
+				st := part[i]
+				tot.states++
+				tot.transitions += ex.transitions
+				tot.replay += ex.replaySteps
+				if ex.complete {
+					tot.complete++
 				}
-				record(cs, e.o)
-				levelSigs = append(levelSigs, e.o.sig)
-			}
-			for sg, n := range ex.counts {
-				addCount(sg, n-boolInt(hasEvent(ex.events, sg)))
-			}
-			for _, s := range ex.succs {
-				if seen[s.key] {
-					continue
+				if ex.completeOK {
+					tot.completeOK++
 				}
-				seen[s.key] = true
-				r.Distinct("partset_states", c.name+"#"+s.key)
-				next = append(next, &psState{hist: append(append([]int{}, st.hist...), s.tok), fill: s.fill})
+				for t := range ex.accepted {
+					accepted[t] = true
+				}
+				for t := range ex.rejected {
+					rejected[t] = true
+				}
+				for _, e := range ex.events {
+					cs := Case{Phase: "partset", Config: c.name, History: c.histNames(st.hist)}
+					if e.tok >= 0 {
+						cs.Token = c.tokens[e.tok].name
+					}
+					record(cs, e.o)
+					levelSigs = append(levelSigs, e.o.sig)
+				}
+				for sg, n := range ex.counts {
+					addCount(sg, n-boolInt(hasEvent(ex.events, sg)))
+				}
+				for _, s := range ex.succs {
+					if seen[s.key] {
+						continue
+					}
+					seen[s.key] = true
+					r.Distinct("partset_states", c.name+"#"+s.key)
+					next = append(next, &psState{hist: append(append([]int{}, st.hist...), s.tok), fill: s.fill})
+				}
 			}
-		}
-		for _, sg := range levelSigs {
-			psKnown[sg] = true
+			// signatures recorded by this batch are known to the following ones
+			for _, sg := range levelSigs {
+				psKnown[sg] = true
+			}
+			levelSigs = levelSigs[:0]
 		}
 		frontier = next
 		if len(next) > 0 {
